@@ -23,7 +23,9 @@ import copy
 from .model import AnalysisError, norm
 from .normalize import InlineJump
 
-_PURE_CALLS = {"len", "bytes", "int", "hex", "min", "max", "bool", "abs", "list", "tuple"}
+_PURE_CALLS = {"len", "bytes", "int", "hex", "min", "max", "bool", "abs", "list", "tuple", "type", "isinstance", "issubclass", "str", "repr",
+               "chr", "ord", "sorted", "reversed", "range", "enumerate", "zip", "set", "frozenset", "dict", "any", "all", "sum", "hasattr", "callable",
+               "bytearray", "divmod", "round"}
 
 
 class Leaf:
@@ -119,6 +121,32 @@ def is_pure(expr):
     return True
 
 
+def _none_test(e):
+    """`X is None` / `X is not None` decided structurally: X a constant, or a constructor call (never None)."""
+    pol = True
+    while isinstance(e, ast.UnaryOp) and isinstance(e.op, ast.Not):
+        e = e.operand
+        pol = not pol
+    if isinstance(e, ast.Compare) and len(e.ops) == 1 and isinstance(e.ops[0], (ast.Is, ast.IsNot)):
+        a, b = e.left, e.comparators[0]
+        if isinstance(a, ast.Constant) and a.value is None:
+            a, b = b, a
+        if isinstance(b, ast.Constant) and b.value is None:
+            is_none = None
+            if isinstance(a, ast.Constant):
+                is_none = a.value is None
+            elif isinstance(a, ast.Call):
+                nm = a.func.attr if isinstance(a.func, ast.Attribute) else (a.func.id if isinstance(a.func, ast.Name) else "")
+                if nm[:1].isupper() and not nm.isupper():
+                    is_none = False        # a constructor call
+            elif isinstance(a, (ast.Tuple, ast.List, ast.Dict, ast.JoinedStr)):
+                is_none = False
+            if is_none is not None:
+                r = is_none if isinstance(e.ops[0], ast.Is) else not is_none
+                return r if pol else not r
+    return None
+
+
 class Walker:
     def __init__(self, A, fn, sc, atom_of, max_leaves=256, max_steps=4000, follow_exc=False, stop_at_for=False):
         self.follow_exc = follow_exc
@@ -155,7 +183,18 @@ class Walker:
                 e2 = subst(e2, hit)
             if isinstance(e2, ast.Constant):
                 return bool(e2.value)
+            v2 = _none_test(e2)
+            if v2 is not None:
+                return v2
+        v1 = _none_test(e)
+        if v1 is not None:
+            return v1
+        if False:
+            pass
         a = self.atom_of(e)
+        if a is None and self._bind and isinstance(e, ast.Name) and e.id in self._bind:
+            # a flag holding the result of a call: recognise the atom on what the flag stands for
+            a = self.atom_of(self._bind[e.id])
         if a is None:
             a = ("?" + norm(e), True)
         name, pol = a
@@ -384,3 +423,81 @@ def return_values(A, fn, sc, PV=None, stop=()):
                     else:
                         out |= {simplify_text(x) for x in PV.expand_consistent(fn, sc, n.value, rn, stop=stop)}
         return out
+
+
+def eval_predicate(A, fn, sc, bindings):
+    """Value returned by the (loop-free, side-effect-free) function fn when its parameters take the constant values in
+    `bindings`: every branch condition must be a closed integer expression (class / module constants are folded).
+    -> the returned value, or raises AnalysisError (idiom not understood)."""
+    from .canon import ieval, NotClosed, fold_consts
+    P = A.P
+    g = A.cfg(fn, sc)
+    locs = set(bindings)
+
+    def closed(e):
+        return ieval(fold_consts(P, e, fn, sc, locals_=locs), bindings)
+
+    def atom(e):
+        try:
+            return (bool(closed(e)), True)
+        except NotClosed:
+            return None
+    leaves = [lf for lf in Walker(A, fn, sc, atom).walk(g.entry)]
+    if len(leaves) != 1 or leaves[0].kind != "return" or leaves[0].node.ast.value is None:
+        raise AnalysisError(f"{fn.qualname}: not a closed decision over its parameters (UNDECIDED)")
+    try:
+        return closed(leaves[0].deep(leaves[0].node.ast.value, stop=tuple(bindings)))
+    except NotClosed as ex:
+        raise AnalysisError(f"{fn.qualname}: result `{ex}` is not a closed expression (UNDECIDED)")
+
+
+def accepted_set(A, fn, sc, param, lo=0, hi=0xFFFF):
+    """{v in [lo, hi] : fn(param=v) is truthy} for a one-parameter integer predicate, computed from its breakpoints:
+    when the parameter only occurs as a direct operand of comparisons / membership tests against constants, the predicate is
+    constant between consecutive constants, so evaluating at k-1, k, k+1 for every constant k (and once inside every gap)
+    decides the whole range; otherwise every value is evaluated."""
+    from .canon import fold_consts
+    P = A.P
+    consts = set()
+    direct = True
+    for n in ast.walk(fn.node):
+        if isinstance(n, ast.Name) and n.id == param and isinstance(n.ctx, ast.Load):
+            pass
+    par = {}
+    for x in ast.walk(fn.node):
+        for c in ast.iter_child_nodes(x):
+            par[id(c)] = x
+    for n in ast.walk(fn.node):
+        if isinstance(n, ast.Name) and n.id == param and isinstance(n.ctx, ast.Load):
+            p_ = par.get(id(n))
+            if not isinstance(p_, ast.Compare):
+                direct = False
+    body = fold_consts(P, ast.Module(body=fn.node.body, type_ignores=[]), fn, sc, locals_={param})
+    for n in ast.walk(body):
+        if isinstance(n, ast.Constant) and isinstance(n.value, int) and not isinstance(n.value, bool):
+            consts.add(n.value)
+        if isinstance(n, ast.BinOp) or (isinstance(n, ast.Call) and not (isinstance(n.func, ast.Name) and n.func.id == "range")):
+            if any(isinstance(x, ast.Name) and x.id == param for x in ast.walk(n)):
+                direct = False
+    if not direct:
+        return {v for v in range(lo, hi + 1) if eval_predicate(A, fn, sc, {param: v})}
+    pts = {lo, hi}
+    for k in consts:
+        for v in (k - 1, k, k + 1):
+            if lo <= v <= hi:
+                pts.add(v)
+    pts = sorted(pts)
+    out = set()
+    memo = {}
+
+    def val(v):
+        if v not in memo:
+            memo[v] = bool(eval_predicate(A, fn, sc, {param: v}))
+        return memo[v]
+    for i, p in enumerate(pts):
+        if val(p):
+            out.add(p)
+        if i + 1 < len(pts) and pts[i + 1] - p > 1:
+            if val(p + 1):
+                out |= set(range(p + 1, pts[i + 1]))
+    return out
